@@ -40,6 +40,10 @@ pub trait Engine {
     }
     /// complete internal state in the schema of the model's ProjB
     fn proj(s: &Self::S, d: &Dims) -> Value;
+    /// state projection written into implementation traces (default: the ProjB schema)
+    fn trace_post(s: &Self::S, d: &Dims) -> Value {
+        Self::proj(s, d)
+    }
     /// canonicalise the model's B value (sort what is a set)
     fn canon_b(b: &Value) -> Value;
     /// every public read entry point, canonical
